@@ -38,7 +38,13 @@ type Transcript struct {
 	Typed  bool   `json:"typed"`  // send through message.Message instead of stream calls
 	Msgs   []TMsg `json:"msgs"`
 	Salt   uint32 `json:"salt"`
+	// Secret: before the attacked messages the sender hands over a secret with PutSecret and the
+	// receiver takes it with GetSecret (both on the already-encrypting stream). Protection of everything
+	// that follows must be unaffected.
+	Secret bool `json:"secret,omitempty"`
 }
+
+const theSecret = "s3cr3t-claim-4711"
 
 type Fault struct {
 	Kind string `json:"kind"`
@@ -57,6 +63,7 @@ type built struct {
 	preAB   [][][]byte
 	preBA   [][][]byte
 	digFwd, digBack []byte
+	secretFrame     []byte // wire bytes of the PutSecret frame preceding the attacked messages (nil: none)
 }
 
 func prefixFrames(tr Transcript) (ab, ba [][][]byte) {
@@ -98,6 +105,16 @@ func build(tr Transcript) (*built, error) {
 		}
 	}
 	b := &built{tr: tr, key: key, preAB: ab, preBA: ba}
+	if tr.Secret {
+		n0 := len(sc.WriteLog)
+		if err := S.PutSecret(kit.Bg, theSecret); err != nil {
+			return nil, err
+		}
+		if len(sc.WriteLog) != n0+1 {
+			return nil, fmt.Errorf("PutSecret wrote %d frames", len(sc.WriteLog)-n0)
+		}
+		b.secretFrame = sc.WriteLog[n0]
+	}
 	w0 := len(sc.WriteLog)
 	for i, m := range tr.Msgs {
 		var whole []byte
@@ -153,6 +170,16 @@ func build(tr Transcript) (*built, error) {
 	rd, err := kit.NewRefDir(key)
 	if err != nil {
 		return nil, err
+	}
+	if b.secretFrame != nil {
+		fr, _ := kit.ParseFrames(b.secretFrame)
+		if len(fr) != 1 {
+			return nil, fmt.Errorf("PutSecret wrote something that is not one frame")
+		}
+		pt, err := rd.Open(fr[0], b.digFwd, b.digBack)
+		if err != nil || string(pt) != theSecret+"\x00" {
+			return nil, fmt.Errorf("reference opener: the secret frame does not open to the secret (%v)", err)
+		}
 	}
 	var cur []byte
 	mi := 0
@@ -220,6 +247,12 @@ func (b *built) freshReceiver() (*stream.Stream, *kit.MemConn) {
 		doIn()
 	}
 	_ = r.SetSymmetricKey(b.key)
+	if b.secretFrame != nil {
+		c.Feed(b.secretFrame)
+		if got, err := r.GetSecret(kit.Bg); err != nil || got != theSecret {
+			panic(fmt.Sprintf("C02 harness: fresh receiver could not take the secret: %q %v", got, err))
+		}
+	}
 	return r, c
 }
 
@@ -412,7 +445,7 @@ func multiFrame(t Transcript) bool {
 
 func genTranscript(t *rapid.T) Transcript {
 	tr := Transcript{Prefix: rapid.IntRange(0, 3).Draw(t, "prefix"), Dir: rapid.IntRange(0, 1).Draw(t, "dir"),
-		Typed: rapid.Bool().Draw(t, "typed"), Salt: rapid.Uint32().Draw(t, "salt")}
+		Typed: rapid.Bool().Draw(t, "typed"), Salt: rapid.Uint32().Draw(t, "salt"), Secret: rapid.IntRange(0, 3).Draw(t, "secret") == 0}
 	n := rapid.IntRange(2, 6).Draw(t, "nmsgs")
 	for i := 0; i < n; i++ {
 		k := rapid.IntRange(1, 4).Draw(t, "nframes")
@@ -503,7 +536,7 @@ func TestC02Exhaustive(t *testing.T) {
 	for ti := 0; ti < nT; ti++ {
 		// deterministic transcript shapes derived from the seed
 		x := uint32(seed)*2654435761 + uint32(ti)*40503
-		tr := Transcript{Prefix: int(x>>3) % 4, Dir: ti % 2, Typed: ti%3 == 2, Salt: x}
+		tr := Transcript{Prefix: int(x>>3) % 4, Dir: ti % 2, Typed: ti%3 == 2, Salt: x, Secret: ti%4 == 3}
 		nm := 2 + int(x>>7)%3
 		sizes := []int{0, 1, 15, 16, 17, 40, 100}
 		for i := 0; i < nm; i++ {
